@@ -129,6 +129,23 @@ def job_mctrl(a):
     return [dict(name="chunk", status="x", strength="aux", backend="csim", secs=0, count=n, nq=3, length=length, pattern="multi-controlled Z/X mixed with classical gates", fails=fails)]
 
 
+MCX4_ALPHABET = [("X", (0,)), ("X", (1,)), ("X", (3,)), ("MCX", (0, 1, 2, 3)), ("MCX", (3, 1, 2, 0)), ("CX", (0, 3)), ("CCX", (0, 1, 3))]
+
+
+def job_mcx4(a):
+    """runs over four qubits with 3-control MCX gates whose controls are WRITTEN earlier in the same run (a slice of the all-sequences space no length-3 bound reaches)"""
+    length, = a
+    n, fails = 0, []
+    for seq in itertools.product(MCX4_ALPHABET, repeat=length):
+        if not any(k == "MCX" for k, _ in seq):
+            continue
+        n += 1
+        f = check(4, list(seq))
+        if f and len(fails) < 50:
+            fails.append(dict(qubits=4, gates=[f"{k}{list(w)}" for k, w in seq], **f))
+    return [dict(name="chunk", status="x", strength="aux", backend="csim", secs=0, count=n, nq=4, length=length, pattern="runs with 3-control MCX gates", fails=fails)]
+
+
 def job_random(a):
     seed, count = a
     r = random.Random(seed)
@@ -172,6 +189,8 @@ def run(tier, only=None):
         jobs.append((job_three, (lo, lo + 27)))
     for L in (2, 3) + ((4,) if tier == "thorough" else ()):
         jobs.append((job_mctrl, (L,)))
+    for L in (3, 4) + ((5,) if tier == "thorough" else ()):
+        jobs.append((job_mcx4, (L,)))
     rs = run_pool(_dispatch, jobs)
     agg = {}
     for r in rs:
